@@ -122,6 +122,7 @@ def run(ctx):
                 empty = True
         ctx.check(P + ':trailer-v3-empty', 'R-table', 'v2/v3 signatures have an empty trailer', empty, function=b.path)
     salt_tables(ctx, P)
+    hash_tables(ctx, P)
     # salt first + twins
     twins(ctx, P)
     hashed_subpackets_all_fed(ctx, P)
@@ -147,6 +148,32 @@ def feed_sequence(b):
             ev.append((b.line(i), i, label, who))
     ev.sort()
     return [(l, w) for _, _, l, w in ev]
+
+
+HASH_MARK = {'Md5': 'md5::Md5', 'Sha1': 'sha1_checked::Sha1', 'Ripemd160': 'ripemd::Ripemd160', 'Sha256': 'OidSha256', 'Sha384': 'OidSha384', 'Sha512': 'OidSha512',
+             'Sha224': 'OidSha224', 'Sha3_256': 'Sha3_256Core', 'Sha3_512': 'Sha3_512Core'}
+
+
+def hash_tables(ctx, P):
+    """The digest computed for a hash algorithm id is the one the id names: in new_hasher, digest and digest_size every match arm uses
+    the dependency type of the same algorithm (a swapped arm is self-consistent on both sides and invisible to round trips)."""
+    for path, callrx in (('crypto::hash::HashAlgorithm::new_hasher', r'default::Default::default$'),
+                         ('crypto::hash::HashAlgorithm::digest_size', r'Digest::output_size$'),
+                         ('crypto::hash::HashAlgorithm::digest', r'Digest::digest$|::try_digest$')):
+        b = ctx.body(path)
+        if b is None:
+            continue
+        dom = b.dominators()
+        tab = {}
+        for i, t in b.calls(callrx):
+            arms = [vs for a, vs in arm_context(b, i, dom) if a == 'HashAlgorithm']
+            ty = (t['f'].get('selfty') or '') + ' ' + (t.get('rty') or '') + ' ' + (t['f'].get('full') or '')
+            for v in (arms[-1] if arms else ['?']):
+                tab.setdefault(v, []).append(ty)
+        bad = {v: tys[0][:80] for v, tys in tab.items() if v in HASH_MARK and not all(HASH_MARK[v] in x for x in tys)}
+        miss = [v for v in HASH_MARK if v not in tab]
+        ctx.check('%s:hash-table:%s' % (P, path.split('::')[-1]), 'R-table', '%s: every HashAlgorithm arm uses the digest implementation of the same algorithm' % path.split('::')[-1],
+                  not bad and not miss, function=path, missing=(bad or miss) or None, count=len(tab))
 
 
 def salt_tables(ctx, P):
